@@ -82,7 +82,7 @@ fn expected_label(d: &Dom, n: usize) -> Option<String> {
     None
 }
 
-pub const META_VARIANTS: [&str; 9] = [
+pub const META_VARIANTS: [&str; 10] = [
     "<meta charset=x>",
     "<meta charset=''>",
     "<meta http-equiv=content-type content='a;charset=b'>",
@@ -92,6 +92,7 @@ pub const META_VARIANTS: [&str; 9] = [
     "<meta content='charset=w' http-equiv=CONTENT-TYPE charset=v>",
     "<meta name=x content='charset=n'>",
     "<meta http-equiv=content-type content='charset'>",
+    "<meta http-equiv=content-type content='a;charset\x0C=\x0Cb\x0Cc'>",
 ];
 
 struct Acc {
@@ -202,8 +203,8 @@ pub fn main(ctx: &Ctx) -> ! {
         acc.outcomes.lock().unwrap().extend(local);
     });
     // 2. exhaustive content-attribute sweep
-    let lex = ["charset", "CHARSET", "chars", " ", "\t", "=", "&quot;", "'", ";", "x", "\u{e9}"];
-    let depth = ctx.tier.pick(6, 7);
+    let lex = ["charset", "CHARSET", "chars", " ", "\t", "=", "&quot;", "'", ";", "x", "\u{e9}", "\x0C", "\n"];
+    let depth = ctx.tier.pick(5, 7);
     let n = lex.len();
     let total = (1..=depth).map(|d| n.pow(d as u32)).sum::<usize>();
     let firsts: Vec<usize> = (0..n * n).collect();
@@ -246,7 +247,7 @@ pub fn main(ctx: &Ctx) -> ! {
             "indicators_observed": acc.indicators.load(Ordering::Relaxed),
             "mode_cases": cases.len(),
             "content_strings": total,
-            "rule": format!("9 meta variants after every insertion-mode witness and every tree lexeme (document, scripting on/off) and in 35 fragment contexts, under every chunking with <= {max_cuts} cuts; all content strings of <= {depth} lexemes over {{charset, CHARSET, chars, SP, TAB, =, \", ', ;, x, e-acute}}: sequence of EncodingIndicator labels == labels expected from the inserted HTML meta elements (R-meta), meta attached when feed returns, tree unchanged by the suspension. distinct_nontrivial = distinct expected label sequences."),
+            "rule": format!("9 meta variants after every insertion-mode witness and every tree lexeme (document, scripting on/off) and in 35 fragment contexts, under every chunking with <= {max_cuts} cuts; all content strings of <= {depth} lexemes over {{charset, CHARSET, chars, SP, TAB, FF, LF, =, \", ', ;, x, e-acute}}: sequence of EncodingIndicator labels == labels expected from the inserted HTML meta elements (R-meta), meta attached when feed returns, tree unchanged by the suspension. distinct_nontrivial = distinct expected label sequences."),
             "exhaustive": true,
             "samples": ["<table><meta charset=x>", "<frameset><meta charset=x>", "<meta http-equiv=content-type content=\"charset charset = &quot;x&quot;\">", "<svg><meta charset=x>"],
         }),
